@@ -390,10 +390,11 @@ Section Framing.
     intros q c hs added b w Hq Hwf H. unfold respond in H.
     destruct (transport_response f added b) as [r0|] eqn:E0.
     - destruct (build_response q f c hs r0) as [r| |] eqn:E1.
-      + inversion H. subst w.
-        assert (Hf : framed (response_adaptor q f (p_rs c) r)).
-        { apply adaptor_framed; [exact Hq|]. eapply build_framed; [|exact E1]. eapply transport_pre; eauto. }
-        destruct (write_out_framed _ Hf) as [A [_ B]]. split; assumption.
+      + assert (Hr : framed r) by (eapply build_framed; [|exact E1]; eapply transport_pre; eauto).
+        destruct (failure_code c (rs_status r)); inversion H; subst w.
+        * destruct (write_out_framed _ Hr) as [A [_ B]]. split; assumption.
+        * assert (Hf : framed (response_adaptor q f (p_rs c) r)) by (apply adaptor_framed; assumption).
+          destruct (write_out_framed _ Hf) as [A [_ B]]. split; assumption.
       + inversion H. cbn. split; [reflexivity|left; reflexivity].
       + discriminate.
     - inversion H. cbn. split; [reflexivity|left; reflexivity].
@@ -408,7 +409,8 @@ Section Framing.
     unfold build_response.
     destruct (match p_minlen c with Some m => compress q f m hs r0 | None => (r0, false) end) as [r1 cz].
     destruct (fetch_payload _ _ _ _ _); try discriminate.
-    rewrite Hq, andb_false_r. discriminate.
+    - cbn. destruct (failure_code c _); discriminate.
+    - rewrite Hq, andb_false_r. cbn. destruct (failure_code c _); discriminate.
   Qed.
 End Framing.
 
@@ -757,7 +759,7 @@ Qed.
 Definition no_adapt : adapt := {| a_on := false; a_body := ""; a_compress := false; a_decompress := false |}.
 Definition cfg0 : pcfg :=
   {| p_cstream := false; p_pool_max := 0; p_proxy_max := 0; p_server_host := "backend:80"; p_host_is_name := true;
-     p_keep_host := false; p_minlen := None; p_ra := no_adapt; p_rs := no_adapt |}.
+     p_keep_host := false; p_fail_codes := []; p_minlen := None; p_ra := no_adapt; p_rs := no_adapt |}.
 Definition with_flag (i : N) : quirks :=
   {| q_compress_keeps_length := (i =? 1)%N; q_adaptor_body_keeps_length := (i =? 2)%N;
      q_proxy_decoded_path := (i =? 3)%N; q_stream_compress_panics := (i =? 4)%N;
@@ -777,7 +779,7 @@ Theorem refuted_compress_len :
 Proof.
   exists toy_fns,
     {| p_cstream := false; p_pool_max := 0; p_proxy_max := 0; p_server_host := "backend:80"; p_host_is_name := true;
-       p_keep_host := false; p_minlen := Some 0; p_ra := no_adapt; p_rs := no_adapt |},
+       p_keep_host := false; p_fail_codes := []; p_minlen := Some 0; p_ra := no_adapt; p_rs := no_adapt |},
     [("Accept-Encoding", ["gzip"])], false, resp5, "hello".
   eexists. split; [exact toy_round_trip|]. split; [intros d H; inversion H; reflexivity|].
   split; [left; reflexivity|]. split; [reflexivity|]. split; [vm_compute; reflexivity|].
@@ -792,7 +794,7 @@ Theorem refuted_adaptor_body_len :
 Proof.
   exists toy_fns,
     {| p_cstream := false; p_pool_max := 0; p_proxy_max := 0; p_server_host := "backend:80"; p_host_is_name := true;
-       p_keep_host := false; p_minlen := None; p_ra := no_adapt;
+       p_keep_host := false; p_fail_codes := []; p_minlen := None; p_ra := no_adapt;
        p_rs := {| a_on := true; a_body := "adapted"; a_compress := false; a_decompress := false |} |},
     [], false, resp5.
   eexists. split; [intros d H; inversion H; reflexivity|]. split; [vm_compute; reflexivity|].
@@ -824,7 +826,7 @@ Theorem refuted_stream_compress_panics :
 Proof.
   exists toy_fns,
     {| p_cstream := false; p_pool_max := -1; p_proxy_max := 0; p_server_host := "backend:80"; p_host_is_name := true;
-       p_keep_host := false; p_minlen := Some 0; p_ra := no_adapt; p_rs := no_adapt |},
+       p_keep_host := false; p_fail_codes := []; p_minlen := Some 0; p_ra := no_adapt; p_rs := no_adapt |},
     [], false, resp5.
   split; [intros d H; inversion H; reflexivity|]. vm_compute. reflexivity.
 Qed.
@@ -839,7 +841,7 @@ Theorem refuted_compress_replaces_label :
 Proof.
   exists toy_fns,
     {| p_cstream := false; p_pool_max := 0; p_proxy_max := 0; p_server_host := "backend:80"; p_host_is_name := true;
-       p_keep_host := false; p_minlen := Some 0; p_ra := no_adapt; p_rs := no_adapt |},
+       p_keep_host := false; p_fail_codes := []; p_minlen := Some 0; p_ra := no_adapt; p_rs := no_adapt |},
     [("Accept-Encoding", ["gzip, br"])], false,
     {| br_status := 200; br_headers := [("Content-Encoding", ["br"])]; br_enc := EncCL 5; br_body := "BROTL" |}.
   eexists. split; [intros d H; inversion H; reflexivity|]. split; [reflexivity|].
@@ -865,7 +867,7 @@ Example proxy_nonvacuous :
                              ("Te", ["trailers"]); ("X-Trace", ["a"; "b"]); ("Accept-Encoding", ["gzip"])];
               cq_body := "ping" |} in
   let c := {| p_cstream := false; p_pool_max := -1; p_proxy_max := 0; p_server_host := "backend:80"; p_host_is_name := true;
-              p_keep_host := false; p_minlen := Some 0; p_ra := no_adapt; p_rs := no_adapt |} in
+              p_keep_host := false; p_fail_codes := []; p_minlen := Some 0; p_ra := no_adapt; p_rs := no_adapt |} in
   match exchange ideal toy_fns c r resp5 with
   | Answered w (Some b) =>
       bq_target b = "/a%3Fb" /\ bq_host b = "backend:80" /\ bq_body b = "ping" /\
@@ -1026,7 +1028,7 @@ End History.
 (** non-vacuity: miss, hit, hit on one resource with a compressing ResponseAdaptor *)
 Example history_nonvacuous :
   let c := {| p_cstream := false; p_pool_max := 0; p_proxy_max := 0; p_server_host := "backend:80"; p_host_is_name := true;
-              p_keep_host := false; p_minlen := None; p_ra := no_adapt;
+              p_keep_host := false; p_fail_codes := []; p_minlen := None; p_ra := no_adapt;
               p_rs := {| a_on := true; a_body := ""; a_compress := true; a_decompress := false |} |} in
   let s := {| mc_on := true; mc_codes := [200]; mc_methods := ["GET"]; mc_max := 100 |} in
   let r := {| cq_method := "GET"; cq_target := "/x"; cq_host := "front"; cq_headers := []; cq_body := "" |} in
@@ -1099,7 +1101,7 @@ Example request_content_nonvacuous :
               cq_headers := [("Content-Encoding", ["gzip"]); ("Connection", ["close"])];
               cq_body := toy_gzip "payload" |} in
   let c := {| p_cstream := false; p_pool_max := 0; p_proxy_max := 0; p_server_host := "backend:80"; p_host_is_name := false;
-              p_keep_host := false; p_minlen := None;
+              p_keep_host := false; p_fail_codes := []; p_minlen := None;
               p_ra := {| a_on := true; a_body := ""; a_compress := false; a_decompress := true |}; p_rs := no_adapt |} in
   label_simple (cq_headers r) /\ decode toy_fns (cq_headers r) (cq_body r) = Some "payload" /\
   stripped (cq_headers r) CE = false /\
